@@ -255,15 +255,15 @@ func init() {
 		}
 		famN := &vf.Family{
 			Name:   "try-nests-without-source-positions",
-			Bounds: "all ordered pairs of try forms of weight <=3 (quick) / <=4 (thorough) of the same grammar, as (list T1 T2) under the prelude, delivered as an AST built from Go (no node has a source position); all pairs of a worker run in one process, one after the other",
+			Bounds: "all ordered pairs of try forms of weight <=3 (thorough: the first of weight <=4) of the same grammar, as (list T1 T2) under the prelude, delivered as an AST built from Go (no node has a source position); all pairs of a worker run in one process, one after the other",
 			Setup:  func(t string) { tier = t; rgn = newEvalRig(false); rgn.ntTraceOnly = true },
-			N:      func(t string) int64 { tier = t; n := gOf().Count(0, wN()); return n * n },
+			N:      func(t string) int64 { tier = t; return gOf().Count(0, wN()) * gOf().Count(0, 3) },
 			Describe: func(i int64) string {
-				n := gOf().Count(0, wN())
+				n := gOf().Count(0, 3)
 				return c03Wrap(form("list", gOf().Unrank(0, i/n), gOf().Unrank(0, i%n))).Lisp()
 			},
 			Run: func(i int64, r *vf.Rec) {
-				n := gOf().Count(0, wN())
+				n := gOf().Count(0, 3)
 				rgn.compareWithModel(c03Wrap(form("list", gOf().Unrank(0, i/n), gOf().Unrank(0, i%n))), []string{"e", "x"}, r, false)
 			},
 		}
